@@ -7,14 +7,27 @@ Development tool: not part of the registered commands."""
 import json, os, subprocess, sys, time
 ROOT = os.path.dirname(os.path.abspath(__file__))
 SEEDED = os.path.join(ROOT, "seeded")
-only = sys.argv[1:]
+import concurrent.futures
+args = sys.argv[1:]
+jobs = 1
+if "-j" in args:
+    i = args.index("-j")
+    jobs = int(args[i + 1])
+    del args[i:i + 2]
+only = args
 rows = []
+todo = []
 for d in sorted(os.listdir(SEEDED)):
     p = os.path.join(SEEDED, d)
     if not os.path.isfile(os.path.join(p, "patch.diff")):
         continue
-    if only and not any(d.startswith(o) for o in only):
+    if only and not any(d.startswith(o) or o in d for o in only):
         continue
+    todo.append(d)
+
+
+def one(d):
+    p = os.path.join(SEEDED, d)
     meta = json.load(open(os.path.join(p, "meta.json")))
     prop = meta["property"]
     scratch = f"/var/tmp/seedtest/{d}"
@@ -26,10 +39,12 @@ for d in sorted(os.listdir(SEEDED)):
     result, tier_hit, detail = "patch-does-not-apply", "-", ap.stderr.strip()[:100]
     if ap.returncode == 0:
         result = "MISSED"
-        for tier in ("quick", "thorough"):
+        # "quick" = the quick generator alone; "quick+esc" = the quick command as registered (the changed anchor makes it
+        # spend the escalated budget); "thorough" = the thorough command
+        for tier in ("quick", "quick+esc", "thorough"):
             t0 = time.time()
-            r = subprocess.run([os.path.join(ROOT, "check"), prop, "--tier", tier], cwd=ROOT, capture_output=True, text=True,
-                               env=dict(os.environ, VERIF_REPO=scratch))
+            r = subprocess.run([os.path.join(ROOT, "check"), prop, "--tier", tier.split("+")[0]], cwd=ROOT, capture_output=True, text=True,
+                               env=dict(os.environ, VERIF_REPO=scratch, VERIF_NO_ESCALATE="1" if tier == "quick" else "0"))
             viol = [l for l in r.stdout.splitlines() if l.startswith("VIOLATION")]
             if r.returncode == 1 and viol:
                 result, tier_hit = "caught", tier
@@ -39,8 +54,12 @@ for d in sorted(os.listdir(SEEDED)):
             detail = (r.stdout.strip().splitlines() or ["?"])[-1][:120]
     subprocess.run(["git", "-C", "/repo", "worktree", "remove", "--force", scratch], capture_output=True)
     subprocess.run(["rm", "-rf", scratch, scratch + "-verif-target"])
-    rows.append((d, prop, result, tier_hit, meta.get("summary", "")[:110], detail))
     print(d, prop, result, tier_hit, detail, flush=True)
+    return (d, prop, result, tier_hit, meta.get("summary", "")[:110], detail)
+
+
+with concurrent.futures.ThreadPoolExecutor(max_workers=jobs) as ex:
+    rows = list(ex.map(one, todo))
 prev = {}
 out = os.path.join(SEEDED, "RESULTS.md")
 if only and os.path.exists(out):
